@@ -192,11 +192,21 @@ class Gen:
         al = aliases if len(aliases) > 1 or r.random() < 0.5 else [None]
         s = ''
         cte = None
-        if depth == 0 and r.random() < 0.15:
-            cte = 'cte1'
-            s = 'with cte1 as (%s) ' % self.simple_select(1)
-            if r.random() < 0.7:
-                frm = frm.replace(r.choice(TABLES[:4]), 'cte1', 1)
+        if depth == 0 and r.random() < 0.2:
+            # one to three CTEs; bodies may themselves need several steps (joins, models, cross-integration
+            # sub-selects) so that steps emitted for an earlier CTE precede the planning of a later one
+            ncte = r.choice([1, 1, 2, 2, 3])
+            names = ['cte%d' % (i + 1) for i in range(ncte)]
+            bodies = [self.simple_select(1) if r.random() < 0.4 else self.select(1) for _ in names]
+            s = 'with ' + ', '.join('%s as (%s)' % (n_, b) for n_, b in zip(names, bodies)) + ' '
+            cte = names[0]
+            for n_ in names:
+                if r.random() < 0.75:
+                    cand = [t for t in TABLES[:4] if t in frm]
+                    if cand:
+                        frm = frm.replace(r.choice(cand), n_, 1)
+                    elif r.random() < 0.5:
+                        frm += ' join %s on %s.id = %s.id' % (n_, n_, aliases[0] if aliases[0] else n_)
         s += 'select %s%s from %s' % ('distinct ' if r.random() < 0.07 else '', self.targets(al, depth), frm)
         if r.random() < 0.55:
             s += ' where ' + self.cond(al, depth)
